@@ -24,13 +24,14 @@ type prepared struct {
 	genOK   map[string][]string // program -> generated files compiled in
 	refused map[string]map[string]string // program -> stage -> diagnostic
 	rn      *Runner
+	extra   map[string]map[string]any // record kind -> program -> data (oracle dumps)
 }
 
 // prepareRunner drives the programs (analysis + targets), runs the in-process
 // oracles, writes clean generated Go next to the sources and builds the runner.
 func prepareRunner(cfg *core.Config, rep *core.Report, progs []*synth.Program, targets []string, oracles []string, inGoSrc bool) *prepared {
 	pl := NewPipeline(cfg, rep, progs, inGoSrc)
-	pr := &prepared{pl: pl, genOK: map[string][]string{}, refused: map[string]map[string]string{}}
+	pr := &prepared{pl: pl, genOK: map[string][]string{}, refused: map[string]map[string]string{}, extra: map[string]map[string]any{}}
 	pl.Run(drive.Job{Prop: cfg.Prop, Targets: targets, Oracles: append(append([]string{}, oracles...), "runner-prep")}, func(r drive.Record) {
 		if pl.StdHandler(r) {
 			return
@@ -57,6 +58,13 @@ func prepareRunner(cfg *core.Config, rep *core.Report, progs []*synth.Program, t
 			files["abort-output.txt"] = r.Message
 			rep.Violate(core.Violation{Signature: "fatal-abort:" + r.Stage, Case: r.Prog, Files: files,
 				Message: fmt.Sprintf("program %s stage %s aborted the process:\n%s", r.Prog, r.Stage, core.Trunc(r.Message, 1500))})
+		default:
+			if r.Data != nil {
+				if pr.extra[r.Kind] == nil {
+					pr.extra[r.Kind] = map[string]any{}
+				}
+				pr.extra[r.Kind][r.Prog] = r.Data
+			}
 		}
 	})
 	sort.Strings(pr.ready)
